@@ -29,38 +29,61 @@ def strip(t):
     return t
 
 
-def zipped_component(ctx, body, e):
-    """the collection whose element is mutated by event e, when that element is a component of the loop's zipped element:
-    navigates the field projections of the element binding through the enumerate / zip structure of the loop driver"""
-    ix = ctx.eng.bx(body)
-    a = e['node']['args'][e['mutarg']]
+def _proj_chain(ctx, b, ev):
+    """(base local, [field indices]) of the place the mutated receiver of event `ev` was taken from: follows single definitions
+    (`x = move (y.1).0`, `r = &mut *x`) and accumulates the field projections, outermost first"""
+    ix = ctx.eng.bx(b)
+    if 'node' not in ev or 'mutarg' not in ev:
+        return None
+    a = ev['node']['args'][ev['mutarg']]
     if a['k'] not in ('copy', 'move'):
         return None
     l = a['place']['l']
-    proj = None
-    for _ in range(4):
+    proj = [x['i'] for x in a['place']['p'] if x['k'] == 'field']
+    for _ in range(8):
+        if l <= b.argc:
+            break
         ds = ix.defs.get(l, [])
         if len(ds) != 1 or ds[0][2] != 'assign':
-            return None
+            break
         rv = ds[0][3]['rv']
         if rv['k'] == 'ref':
             p = rv['place']
-        elif rv['k'] == 'use' and rv['op']['k'] in ('copy', 'move'):
+        elif rv['k'] in ('use', 'copyforderef') and (rv.get('op') or {}).get('k') in ('copy', 'move'):
             p = rv['op']['place']
+        elif rv['k'] == 'copyforderef' and 'place' in rv:
+            p = rv['place']
         else:
-            return None
-        fs = [x['i'] for x in p['p'] if x['k'] == 'field']
-        if fs:
-            proj = fs
             break
+        proj = [x['i'] for x in p['p'] if x['k'] == 'field'] + proj
         l = p['l']
-    if not proj:
-        return None
-    lps = ctx.enclosing_loops(body, e['bb'])
-    if not lps or lps[-1].iter_term is None:
-        return None
-    cur = strip(lps[-1].iter_term)
-    for i in proj[1:]:          # proj[0] is the payload of Some
+    return l, proj
+
+
+def zipped_component(ctx, body, e):
+    """the collection whose element is mutated by event e, when that element is a component of the element the loop (or the closure
+    handed to `for_each` / `try_for_each`) receives: navigates the field projections of the element binding through the enumerate / zip
+    structure of the iterator"""
+    if e.get('kind') == 'closure':
+        inner, cb = e.get('inner'), e.get('cbody')
+        if inner is None or cb is None or inner.get('kind') == 'closure' or e.get('closure_local') is None:
+            return None
+        it = ctx.eng.applied_to(body, e['bb'], e['closure_local'])
+        pc = _proj_chain(ctx, cb, inner)
+        if it is None or pc is None or pc[0] != 2:
+            return None
+        cur, fields = strip(it), pc[1]
+    else:
+        pc = _proj_chain(ctx, body, e)
+        if pc is None or not pc[1]:
+            return None
+        lps = ctx.enclosing_loops(body, e['bb'])
+        if not lps or lps[-1].iter_term is None:
+            return None
+        cur, fields = strip(lps[-1].iter_term), pc[1][1:]          # the first projection is the payload of Some
+    while cur.tag == 'adapt' and cur[1] in ('by_ref', 'into_iter'):
+        cur = strip(cur[2])
+    for i in fields:
         if cur.tag == 'enumerate':
             if i != 1:
                 return None
@@ -200,7 +223,20 @@ def r1(ctx, new):
     # the loop ranges over all parties: zip(g_vec.iter_mut(), h_vec.iter_mut()).enumerate()
     lps = [lp for lp in ctx.loops(new).values() if lp.iter_term is not None and lp.iter_term.tag == 'enumerate']
     ok = bool(lps) and not ctx.adapters(lps[0].iter_term) and lps[0].driver_only_exit
-    rep.check(ok, 'R-C11-1', 'R-C11-1/all-parties', 'the derivation loop enumerates every party vector', 'the party loop is %s' % (short(lps[0].iter_term, 100) if lps else None), ctx.where(new))
+    shown = short(lps[0].iter_term, 100) if lps else None
+    if not lps:
+        # the same iteration handed to for_each / try_for_each (which stops early on an error only): the iterator the filling closure is
+        # applied to
+        its = []
+        for e in ix.events():
+            if e.get('kind') == 'closure' and e.get('closure_local') is not None and e['decl'] == 'std::iter::Extend::extend':
+                it = ctx.eng.applied_to(new, e['bb'], e['closure_local'])
+                if it is not None:
+                    its.append(strip(it))
+        if its:
+            shown = short(its[0], 100)
+            ok = all(x.tag == 'enumerate' and not ctx.adapters(x) for x in its)
+    rep.check(ok, 'R-C11-1', 'R-C11-1/all-parties', 'the derivation loop enumerates every party vector', 'the party loop is %s' % shown, ctx.where(new))
 
 
 def hasher_inputs(t):
@@ -264,17 +300,27 @@ def r3(ctx, new):
     if ok:
         g_side, h_side = a[1], a[2]
         def base_vec(side):
-            # flatten(map(vec, |v| v.iter()))
+            # flatten(map(vec, |v| v.iter()))  or  flatten(vec.iter())
             s = strip(side)
             if s.tag == 'flatten':
                 s = strip(s[1])
+            while s.tag == 'adapt' and s[1] in ('iter', 'into_iter', 'by_ref') and len(s.args) >= 3:
+                s = strip(s[2])
+            cands = [s]
             if s.tag == 'map':
-                s = strip(s[1])
-            return s
-        gv, hv = base_vec(g_side), base_vec(h_side)
+                # flatten(map(vec, |v| v.iter())): the vector under the per-element iter() closure
+                s2 = strip(s[1])
+                while s2.tag == 'adapt' and s2[1] in ('iter', 'into_iter', 'by_ref') and len(s2.args) >= 3:
+                    s2 = strip(s2[2])
+                cands.append(s2)
+            return cands
+        gvs, hvs = base_vec(g_side), base_vec(h_side)
         fg, fh = strip(fields.get('g_vec')) if fields.get('g_vec') is not None else None, strip(fields.get('h_vec')) if fields.get('h_vec') is not None else None
-        ok = gv is fg and hv is fh and fg is not fh and not skeleton_adapters(a)
-        det = 'G side from %s, H side from %s' % (short(gv, 60), short(hv, 60))
+        gi = [i for i, x in enumerate(gvs) if x is fg]
+        hi = [i for i, x in enumerate(hvs) if x is fh]
+        # both sides read the stored vectors in the same way (both directly, or both through the per-element iter() closure)
+        ok = bool(gi) and bool(hi) and bool(set(gi) & set(hi)) and fg is not fh and not skeleton_adapters(a)
+        det = 'G side from %s, H side from %s' % (short(gvs[-1], 60), short(hvs[-1], 60))
     rep.check(ok, 'R-C11-3', 'R-C11-3/precomp', 'the table is built from interleave(flatten(g_vec), flatten(h_vec)) of the vectors stored in the struct (G first)',
               'the table is built from %s' % det, ctx.where(new, bb))
     for nm in ('gens_capacity', 'party_capacity'):
@@ -323,6 +369,14 @@ def string_pieces(t):
         nm = t[1].split('::')[-1]
         if nm in ('to_owned', 'as_bytes', 'as_str', 'deref', 'as_ref', 'borrow', 'into', 'from', 'clone', 'to_vec', 'into_bytes', 'must_use') and len(t[2]) == 1:
             return string_pieces(t[2][0])
+        if nm in ('concat', 'join') and len(t[2]) == 1 and strip(t[2][0]).tag == 'array':
+            out = []
+            for x in strip(t[2][0]).args:
+                px = string_pieces(x)
+                if px is None:
+                    return None
+                out += px
+            return out
         if nm == 'to_string' and len(t[2]) == 1:
             inner = string_pieces(t[2][0])
             return inner if inner is not None else [('dec', t[2][0])]
@@ -370,12 +424,15 @@ def r4(ctx):
     else:
         rep.saw_body(mb)
         rep.saw_body(cb)
-        st = [e for e in ctx.eng.bx(mb).events() if e['kind'] == 'store']
+        # the store may sit in the initialiser itself (a `for` loop) or in a closure it hands to for_each: look in every frame
+        st = [(fr, e) for fr in ctx.frames(mb) if all(f_.kind != 'call' for f_ in fr.chain()) for e in ctx.eng.bx(fr.body).events() if e['kind'] == 'store']
         ok = False
         det = ''
         if len(st) == 1:
-            t = ctx.eng.event_term(mb, st[0])
-            val = t[3][0]
+            fr1, ev1 = st[0]
+            b1 = fr1.body
+            t = ctx.eng.event_term(b1, ev1)
+            val = ctx.eng.expand(fr1.lift(t[3][0]), stop={hf.path} if hf is not None else ())
             c = canon(val)
             det = c
             # the hashed label, whichever way the string is put together
@@ -390,13 +447,34 @@ def r4(ctx):
                     label = hi0[1][0]
             pieces = canon_pieces(string_pieces(label)) if label is not None else None
             # the integer is rendered in decimal: through Display (to_string / format!("{}"))
-            dec = any(callee_decl(t2) == 'std::string::ToString::to_string' or callee_decl(t2).endswith('::new_display') for _, t2 in ctx.calls(mb))
-            ok = dec and pieces == [b'RISTRETTO_MASKING_BASEPOINT_', ('dec', 'idx(range(1,None))')]
-            det = '%s with label pieces %s' % (c[:120], pieces)
-            # stored through the zipped iter_mut element
-            lp = list(ctx.loops(mb).values())
-            zipped = bool(lp) and lp[0].iter_term is not None and canon(lp[0].iter_term).startswith('zip(range(1,None),') and not ctx.adapters(lp[0].iter_term)
-            ok = ok and zipped
+            scope = [mb] + [c2 for c2 in ctx.facts.reachable_from([mb])]
+            dec = any(callee_decl(t2) == 'std::string::ToString::to_string' or callee_decl(t2).endswith('::new_display') for b_ in scope for _, t2 in ctx.calls(b_))
+            # the iteration: the array slots zipped with the degrees 1.., in a `for` loop or handed to for_each; the slot written is the
+            # partner of the degree rendered into the label
+            z, whole = None, False
+            lp1 = [l for l in ctx.loops(b1).values() if ev1['bb'] in l.blocks and l.iter_term is not None]
+            if lp1:
+                z = strip(fr1.lift(lp1[-1].iter_term))
+                whole = lp1[-1].driver_only_exit
+            elif fr1.kind == 'closure' and fr1.parent is not None:
+                cs = ctx.closure_site(b1)
+                if cs is not None and not cs[3]['place']['p']:
+                    itz = ctx.eng.applied_to(cs[0], cs[1], cs[3]['place']['l'])
+                    z = strip(fr1.parent.lift(itz)) if itz is not None else None
+                    whole = True
+            zipped = False
+            want_idx = None
+            if z is not None and z.tag == 'zip' and not ctx.adapters(z) and whole:
+                sides = [strip(z[1]), strip(z[2])]
+                rk = [k for k in (0, 1) if canon(sides[k]) == 'range(1,None)']
+                if len(rk) == 1:
+                    place = ev1['place']
+                    ptr = fr1.lift(ctx.eng.local(b1, ev1['bb'], ev1['idx'], place['l'])) if [pe['k'] for pe in place['p']] == ['deref'] else None
+                    slot = mk_elem(ctx.eng, z[2 - rk[0]])
+                    zipped = ptr is not None and strip(ptr) is strip(slot)
+                    want_idx = canon(mk_elem(ctx.eng, z[1 + rk[0]]))
+            ok = dec and zipped and pieces in ([b'RISTRETTO_MASKING_BASEPOINT_', ('dec', 'idx(range(1,None))')], [b'RISTRETTO_MASKING_BASEPOINT_', ('dec', want_idx)])
+            det = '%s with label pieces %s (slot zipped with the degree: %s)' % (c[:120], pieces, zipped)
         rep.check(ok, 'R-C11-4', 'R-C11-4/blinding-generators', 'generator i = hash_from_bytes_sha3_512("RISTRETTO_MASKING_BASEPOINT_" ++ decimal(i)), i = 1.. zipped with the array slots',
                   'blinding generators are derived as %s' % det, ctx.where(mb))
         # the store may sit in the initialiser itself (a `for` loop) or in a closure it hands to for_each: look in every frame
